@@ -1,3 +1,4 @@
+\* thorough tier: two mutations, two mark/reconcile rounds, initial tree (S, B(S|S))
 SPECIFICATION Spec
 CONSTANTS
   MaxObj = 24
@@ -5,7 +6,7 @@ CONSTANTS
   MaxMut = 2
   MaxRounds = 2
   MaxFst = 1
-  InitShapes <- ShapesOne
+  InitShapes <- ShapesTwo
 VIEW View
 CHECK_DEADLOCK FALSE
 INVARIANT MarkNoAlias
